@@ -14,7 +14,10 @@ part of the correspondence suite (stored definitions re-dumped after every use).
 
 The macro store is `State.macroState`, an `object.Environment` without outer.  After the fix of
 `extendMacroEnv` (parameters are created with `SetNoChecks(…, true)`), the only objects it ever
-holds are `*object.Macro`.
+holds are `*object.Macro`.  The model follows the fixed code: a macro body runs under the session's
+depth limit and deadline with its output discarded and without cache; an unquoted value without
+syntax becomes an `error("…")` node; `x.y = macro…` is not a definition; an all-caps macro keeps its
+first definition.
 -/
 namespace Grol.Macro
 open Grol.E Grol.Wire
@@ -26,8 +29,16 @@ structure MacroDef where
 
 abbrev Store := List (String × MacroDef)
 
+/-- what the macro-body state inherits from the session (`evalEnv.Context = s.Context`,
+`evalEnv.MaxDepth = s.MaxDepth`) plus the model's own recursion fuel -/
+structure Limits where
+  fuel : Nat := 4000
+  maxDepth : Nat := 150000
+  deadlineAfter : Option Nat := none
+  deriving Inhabited
+
 /-- expansion stops abnormally exactly when the evaluator model does: Go panic, depth guard
-(a Go panic with the "max depth" text), out of fuel, outside the modelled subset -/
+(a Go panic with the "max depth" text), out of lim, outside the modelled subset -/
 abbrev X := Except Stop
 
 def lookupDef : Store → String → Option MacroDef
@@ -40,28 +51,28 @@ def setDef : Store → String → MacroDef → Store
 
 /-! ### DefineMacros -/
 
-/-- `isAssign` + `isMacroDefinition`: an infix node whose token is `=` (not `:=`) and whose right
-operand is a macro literal; the LEFT operand is not looked at -/
+/-- `isAssign` + `isMacroDefinition`: an infix node whose token is `=` (not `:=`), whose left operand
+is a plain identifier and whose right operand is a macro literal (`m.x = macro…`, `a[0] = macro…` are
+not definitions: they stay in the program) -/
 def isMacroDefinition : Node → Bool
-  | .inf "ASSIGN" _ (.macroLit ..) => true
+  | .inf "ASSIGN" (.ident _) (.macroLit ..) => true
   | _ => false
 
 /-- `extraFunctions` (object.IsExtraFunction): names a binding may never take -/
 def isExtraFunction (name : String) : Bool := defaultExtNames.contains name
 
-/-- `addMacro`: `assign.Left.(*ast.Identifier)` is an unchecked type assertion (Go panic when the
-left side is `a[0]` or `a.b`); `s.Set(name, macro)` = `CreateOrSet(name, macro, false)` on the macro
+/-- `addMacro`: `assign.Left.(*ast.Identifier)` is an unchecked type assertion, but `isMacroDefinition`
+has checked it (the last case below is unreachable from `defineLoop`); `s.Set(name, macro)` = `CreateOrSet(name, macro, false)` on the macro
 environment, whose result (possibly an error object) is dropped:
-* a constant name (all caps) that is already bound: `Equals(old, new)` calls `Cmp` on two MACRO
-  objects, which panics ("Unexpected type in Cmp");
+* a constant name (all caps) that is already bound keeps its first definition (`addMacro` returns
+  before `Set`, whose `Equals` on two MACRO objects used to panic in `Cmp`);
 * the name of an extension function: error object, nothing stored;
 * `info`: `Get("info")` answers the environment description, never the macro; the name is not a
   constant so the macro is stored (and can never be called);
 * otherwise the entry is created or replaced. -/
 def addMacro (store : Store) : Node → X Store
   | .inf _ (.ident name) (.macroLit params body) =>
-    if isConstant name && (lookupDef store name).isSome && name != "self" && name != "info" then
-      .error (.goPanic "Cmp on MACRO objects (redefinition of a constant-named macro)")
+    if isConstant name && (lookupDef store name).isSome then .ok store
     else if isExtraFunction name then .ok store
     else .ok (setDef store name { params := params, body := body })
   | _ => .error (.goPanic "addMacro: assign.Left.(*ast.Identifier)")
@@ -147,12 +158,12 @@ end
 /-! ### quote / unquote -/
 
 /-- `convertObjectToASTNode`: integers, booleans and quotes; anything else logs a warning and
-returns a Go nil node (which the printer dereferences: a Go panic later on) -/
-def convertObjectToASTNode : Obj → Node
-  | .int v => .int v
-  | .bool b => .bool b
-  | .quote n => n
-  | _ => .none
+returns a Go nil node (`none`) -/
+def convertObjectToASTNode : Obj → Option Node
+  | .int v => some (.int v)
+  | .bool b => some (.bool b)
+  | .quote n => some n
+  | _ => none
 
 /-- the environment built by `extendMacroEnv`: parameter name ↦ argument tree (every value is an
 `object.Quote`).  `SetNoChecks(name, quote, true)` = `create`: a repeated name is overwritten. -/
@@ -171,105 +182,90 @@ def extendMacroEnv : List String → List Node → MEnv → MEnv
   | p :: ps, a :: as, env => extendMacroEnv ps as (setArg env p a)
   | _, _, env => env
 
-/-- builtins that write to `s.Out` (nil in the macro state: a Go nil-pointer panic) -/
-partial def usesWriter : Node → Bool
-  | .builtin name ps => name == "PRINT" || name == "PRINTLN" || name == "LOG" || ps.any usesWriter
-  | .pre _ r => usesWriter r
-  | .inf _ l r => usesWriter l || usesWriter r
-  | .stmts l => l.any usesWriter
-  | .ifE c a b => usesWriter c || usesWriter a || usesWriter b
-  | .forE c b => usesWriter c || usesWriter b
-  | .ret v => usesWriter v
-  | .fn _ _ _ _ _ b => usesWriter b
-  | .call f as => usesWriter f || as.any usesWriter
-  | .arr els => els.any usesWriter
-  | .mapLit ks vs => ks.any usesWriter || vs.any usesWriter
-  | .idx _ l i => usesWriter l || usesWriter i
-  | .macroLit _ b => usesWriter b
-  | _ => false
-
-/-- the state `&State{env: extended}` of `extendMacroEnv`: no cache, no writer, no extensions, no
-context, MaxDepth 0 — so every `s.Eval` below the body (operands of any operator, callee, index…)
-trips the depth guard: `panic("max depth 0 reached")`.  `depth = 1`: we are inside `Eval(macro.Body)`. -/
-def macroSt (env : MEnv) : St :=
-  { cfg := { cacheOn := false, maxDepth := 0 },
+/-- the state `&State{env: extended, Out: io.Discard, LogOut: io.Discard}` of `extendMacroEnv`, with
+`Context` and `MaxDepth` of the session (set by `ExpandMacros`): no cache (a nil cache never
+memoizes), no extensions, output discarded.  `depth = 1`: we are inside `Eval(macro.Body)`. -/
+def macroSt (lim : Limits) (env : MEnv) : St :=
+  { cfg := { cacheOn := false, maxDepth := lim.maxDepth, deadlineAfter := lim.deadlineAfter },
     frames := #[{}, { store := env.map fun (k, v) => (k, Obj.quote v), outer := some 0 }],
     cur := 1, root := 0, depth := 1, outs := [[]], extNames := [] }
 
-def frameSets (st : St) : Nat := st.frames.foldl (fun n f => n + f.numSet + f.store.length) 0
+/-- bindings and set counters of the macro store frame and the macro's own frame -/
+def frameSets (st : St) : Nat := (st.frames.toList.take 2).foldl (fun n f => n + f.numSet + f.store.length) 0
 
 /-- anything that is not a parameter lookup or a `quote(…)` statement: run the evaluator model
-(`evalInternal`) in the macro state.  Declined: expressions naming a macro (the store's objects are
-not values of the evaluator model), writing builtins (nil writer), and evaluations that change
-the macro environment (this model keeps it immutable). -/
-def general (fuel : Nat) (store : Store) (env : MEnv) (node : Node) : X Obj :=
+(`evalInternal`) in the macro state; what it writes is discarded.  Declined: expressions naming a
+macro (the store's objects are not values of the evaluator model) and evaluations that change the
+macro environment (this model keeps it immutable). -/
+def general (lim : Limits) (store : Store) (env : MEnv) (node : Node) : X Obj :=
   if mentions ("info" :: "self" :: store.map (·.1)) node then .error (.unmodelled "macro body names a macro / info / self")
-  else if usesWriter node then .error (.unmodelled "macro body writes (nil writer in the macro state: Go panic)")
   else
-    let st0 := macroSt env
-    match (evalI fuel node).run st0 |>.run with
+    let st0 := macroSt lim env
+    match (evalI lim.fuel node).run st0 |>.run with
     | (.error e, _) => .error e
     | (.ok v, st1) =>
-      if st1.frames.size != 2 || frameSets st1 != frameSets st0 then .error (.unmodelled "macro environment changed")
+      if frameSets st1 != frameSets st0 then .error (.unmodelled "macro environment changed")
       else match v with
         | .ref .. => .error (.unmodelled "reference result in the macro state")
         | v => .ok v
 
+/-- `MacroErrorf`: the node `error("<message>")` -/
+def macroErrorf (msg : String) : Node := .builtin "ERROR" [.str (toBytes msg)]
+
 /-- `s.evalInternal(call.Parameters[0])` for the argument of an `unquote`.  The identifier case is
 `evalIdentifier` → `Environment.Get` hitting the extended environment's own store. -/
-def evalUnquoteArg (fuel : Nat) (store : Store) (env : MEnv) : Node → X Obj
+def evalUnquoteArg (lim : Limits) (store : Store) (env : MEnv) : Node → X Obj
   | .ident name =>
-    if name == "info" || name == "self" then general fuel store env (.ident name)
+    if name == "info" || name == "self" then general lim store env (.ident name)
     else match lookupArg env name with
       | some a => .ok (.quote a)
-      | none => general fuel store env (.ident name)
-  | e => general fuel store env e
+      | none => general lim store env (.ident name)
+  | e => general lim store env e
 
 /-- the callback of `evalUnquoteCalls`: `isUnquoteCall`, exactly one parameter (else the node is
 kept and a warning logged), evaluate, convert -/
-def unquoteCb (fuel : Nat) (store : Store) (env : MEnv) : Node → X Node
+def unquoteCb (lim : Limits) (store : Store) (env : MEnv) : Node → X Node
   | .builtin "UNQUOTE" [e] => do
-    let o ← evalUnquoteArg fuel store env e
-    pure (convertObjectToASTNode o)
+    let o ← evalUnquoteArg lim store env e
+    match convertObjectToASTNode o with
+    | some n => pure n
+    | none => pure (macroErrorf "unquote: no syntax for this value")   -- MacroErrorf; wording not compared
   | n => pure n
 
 /-- `evalUnquoteCalls` -/
-def evalUnquoteCalls (fuel : Nat) (store : Store) (env : MEnv) (quoted : Node) : X Node :=
-  modify (unquoteCb fuel store env) quoted
+def evalUnquoteCalls (lim : Limits) (store : Store) (env : MEnv) (quoted : Node) : X Node :=
+  modify (unquoteCb lim store env) quoted
 
 /-- `evalStatements` on the macro body, with `evalBuiltin`'s QUOTE case inlined (`argCheck`: exactly
 one parameter, else an error object) -/
-def evalBodyStatements (fuel : Nat) (store : Store) (env : MEnv) : List Node → Obj → X Obj
+def evalBodyStatements (lim : Limits) (store : Store) (env : MEnv) : List Node → Obj → X Obj
   | [], result => pure result
   | stmt :: rest, result =>
     match stmt with
-    | .comment => evalBodyStatements fuel store env rest result
+    | .comment => evalBodyStatements lim store env rest result
     | .builtin "QUOTE" ps =>
       match ps with
       | [t] => do
-        let n ← evalUnquoteCalls fuel store env t
-        evalBodyStatements fuel store env rest (.quote n)
+        let n ← evalUnquoteCalls lim store env t
+        evalBodyStatements lim store env rest (.quote n)
       | _ => pure (err "wrong number of arguments")
     | _ => do
-      let r ← general fuel store env stmt
+      let r ← general lim store env stmt
       match r with
       | .ret .. | .error _ => pure r
-      | _ => evalBodyStatements fuel store env rest r
+      | _ => evalBodyStatements lim store env rest r
 
 /-- `evalEnv.Eval(macro.Body)`: depth 0 > MaxDepth 0 is false; statements; unwrap a return value -/
-def evalBody (fuel : Nat) (store : Store) (env : MEnv) : Node → X Obj
+def evalBody (lim : Limits) (store : Store) (env : MEnv) : Node → X Obj
   | .stmts l => do
-    let r ← evalBodyStatements fuel store env l .null
+    let r ← evalBodyStatements lim store env l .null
     match r with
     | .ret v kind => if kind != "RETURN" then pure (err "unexpected control type outside of for loops") else pure v
     | r => pure r
   | .none => pure .null
-  | other => general fuel store env other
+  | other => general lim store env other
 
 /-! ### ExpandMacros -/
-
-/-- `MacroErrorf`: the node `error("<message>")` -/
-def macroErrorf (msg : String) : Node := .builtin "ERROR" [.str (toBytes msg)]
 
 def notQuoteMsg : String := "macro should return Quote."
 
@@ -280,7 +276,7 @@ def isMacroCall (store : Store) : Node → Option MacroDef
   | _ => none
 
 /-- the callback of `ExpandMacros` -/
-def expandCb (fuel : Nat) (store : Store) : Node → X Node
+def expandCb (lim : Limits) (store : Store) : Node → X Node
   | .call fn args =>
     match isMacroCall store fn with
     | none => pure (.call fn args)
@@ -288,25 +284,26 @@ def expandCb (fuel : Nat) (store : Store) : Node → X Node
       if args.length != m.params.length then
         pure (macroErrorf s!"wrong number of macro arguments, want={m.params.length}, got={args.length}")
       else do
-        let evaluated ← evalBody fuel store (extendMacroEnv m.params args []) m.body
+        let evaluated ← evalBody lim store (extendMacroEnv m.params args []) m.body
         match evaluated with
         | .quote n => pure n
         | _ => pure (macroErrorf notQuoteMsg)
   | n => pure n
 
 /-- `ExpandMacros`: a pure function of (macro store, program) -/
-def expandMacros (fuel : Nat) (store : Store) (program : Node) : X Node :=
-  modify (expandCb fuel store) program
+def expandMacros (lim : Limits) (store : Store) (program : Node) : X Node :=
+  modify (expandCb lim store) program
 
-def defaultFuel : Nat := 4000
+/-- the harness configuration: default MaxDepth, a counting context of 200000 polls -/
+def defaultLimits : Limits := { deadlineAfter := some 200000 }
 
 /-- one REPL input up to (not including) evaluation, in `evalOne`'s order: DefineMacros, then
 ExpandMacros only when the store is not empty -/
-def step (fuel : Nat) (store : Store) (program : Node) : Store × X Node × X Node :=
+def step (lim : Limits) (store : Store) (program : Node) : Store × X Node × X Node :=
   match defineMacros store program with
   | (store', .error e) => (store', .error e, .error e)
   | (store', .ok p) =>
     if store'.isEmpty then (store', .ok p, .ok p)
-    else (store', .ok p, expandMacros fuel store' p)
+    else (store', .ok p, expandMacros lim store' p)
 
 end Grol.Macro
